@@ -1679,7 +1679,8 @@ theorem stepG (f : α → α → α) (g1 g2 : Rat → Option α) (st : BinSt α)
     obtain ⟨hg1, hg2⟩ := ne_inf_of_max hτ
     exact ⟨_, o, hup, hso, eok_fin hEOK, Or.inr ⟨τ, v', rfl, hEOK, ht', hτ⟩, Or.inr ⟨hs1, hg1⟩, Or.inr ⟨hs2, hg2⟩⟩
 
-/-- The buffer of a constant operand: empty, or `[0, c], [inf, c]` and whatever arrived later. -/
+/-- The buffer of a constant operand: empty (before the first update), or `[0, c], [inf, c]` (followed by whatever a
+    further non-empty batch would add; with `constStream` nothing is added). -/
 def CBuf (c : α) (buf : ASig α) : Prop := buf = [] ∨ ∃ junk, buf = (Tm.zero, c) :: (Tm.inf, c) :: junk
 
 theorem CBuf.join {c : α} {buf : ASig α} (h : CBuf c buf) :
@@ -1710,11 +1711,44 @@ theorem CBuf.keep {c : α} {b r : ASig α} (h : ∃ junk, b = (Tm.zero, c) :: (T
         rw [← hpre.2.1] at this
         exact absurd (lt_of_lt_of_le this (le_inf _)) (lt_irrefl _)
 
+/-- A batch of a constant operand: `[0, c], [inf, c]` (first update) or nothing (later updates). -/
+def CBatch (c : α) (C : ASig α) : Prop := C = [] ∨ C = [(Tm.zero, c), (Tm.inf, c)]
+
+theorem CBuf.joinB {c : α} {buf C : ASig α} (h : CBuf c buf) (hC : CBatch c C) : CBuf c (joinBuf buf C) := by
+  rcases hC with rfl | rfl
+  · rw [joinBuf_nil_right]; exact h
+  · exact Or.inr h.join
+
+theorem CBuf.keepB {c : α} {b r : ASig α} (h : CBuf c b) (hk : KeepOrSuf b r) : CBuf c r := by
+  rcases h with rfl | h
+  · rcases hk with rfl | ⟨⟨pre, hpre, _⟩, _⟩
+    · exact Or.inl rfl
+    · exact Or.inl (List.append_eq_nil_iff.1 hpre.symm).2
+  · exact CBuf.keep h hk
+
+theorem CBuf.hd_zero {c : α} {b : ASig α} (h : CBuf c b) (hne : b ≠ []) : hd b = Tm.fin 0 := by
+  rcases h with rfl | ⟨junk, rfl⟩
+  · exact absurd rfl hne
+  · rfl
+
+theorem cbatch_constStream (c : α) : ∀ (n : Nat), ∀ C ∈ constStream c n, CBatch c C
+  | 0, C, hC => by simp [constStream] at hC
+  | k + 1, C, hC => by
+    simp only [constStream, List.mem_cons] at hC
+    rcases hC with rfl | hC
+    · exact Or.inr rfl
+    · exact Or.inl (List.eq_of_mem_replicate hC)
+
 theorem track_const (c : α) (junk : ASig α) :
     Track (fun _ => some c) ((Tm.zero, c) :: (Tm.inf, c) :: junk) Tm.inf := by
   refine ⟨⟨fin_lt_inf 0, Or.inl rfl⟩, fun x _ => le_inf x, ?_⟩
   intro t ht _
   exact valAtA_head _ _ _ _ _ _ ht (fin_lt_inf t)
+
+theorem CBuf.track {c : α} {b : ASig α} (h : CBuf c b) (hne : b ≠ []) : ∃ lam, Track (fun _ => some c) b lam := by
+  rcases h with rfl | ⟨junk, rfl⟩
+  · exact absurd rfl hne
+  · exact ⟨_, track_const c junk⟩
 
 theorem lift2_const_right (f : α → α → α) (g : Rat → Option α) (c : α) (t : Rat) :
     lift2 f g (fun _ => some c) t = (g t).map (fun a => f a c) := by
@@ -1754,31 +1788,33 @@ theorem phase_h02 {Gt : Rat → Option α} {st : BinSt α} {E : ASig α} (hph : 
   · rw [hlo] at hlo'; cases hlo'
 
 theorem runR (f : α → α → α) (g1 : Rat → Option α) (c : α) (W1 : ASig α) (hW1 : StreamW g1 W1) :
-    ∀ (Ls : List (ASig α)) (I1 : ASig α) (st : BinSt α) (E : ASig α),
-      I1 ++ Ls.flatten = W1 → (∀ B ∈ Ls, Sorted B) → BufOK I1 st.buf1 → CBuf c st.buf2 →
+    ∀ (Ls Cs : List (ASig α)) (I1 : ASig α) (st : BinSt α) (E : ASig α),
+      I1 ++ Ls.flatten = W1 → (∀ B ∈ Ls, Sorted B) → (∀ C ∈ Cs, CBatch c C) → BufOK I1 st.buf1 → CBuf c st.buf2 →
       Phase (lift2 f g1 (fun _ => some c)) st E →
-      ∃ st' outs, runBin (binUpdate f) st (Ls.zip (constStream c Ls.length)) = .ok (st', outs) ∧
+      ∃ st' outs, runBin (binUpdate f) st (Ls.zip Cs) = .ok (st', outs) ∧
         (∀ B ∈ outs, Sorted B ∧ ∀ x ∈ B, x.1 ≠ Tm.inf) ∧
         Phase (lift2 f g1 (fun _ => some c)) st' (E ++ outs.flatten)
-  | [], I1, st, E, _, _, _, _, hph => ⟨st, [], rfl, by simp, by simpa using hph⟩
-  | L :: Ls, I1, st, E, e1, hs, hB, hC, hph => by
+  | [], _, I1, st, E, _, _, _, _, _, hph => ⟨st, [], by rw [List.zip_nil_left]; rfl, by simp, by simpa using hph⟩
+  | _ :: _, [], I1, st, E, _, _, _, _, _, hph => ⟨st, [], by rw [List.zip_nil_right]; rfl, by simp, by simpa using hph⟩
+  | L :: Ls, C :: Cs, I1, st, E, e1, hs, hCs, hB, hC, hph => by
     simp only [List.flatten_cons] at e1
     rw [← List.append_assoc] at e1
     have hW : StreamW g1 (I1 ++ L ++ Ls.flatten) := by rw [e1]; exact hW1
     have hL : Sorted L := hs L (by simp)
     have hfL : ∀ x ∈ L, x.1 ≠ Tm.inf := fun x hx => hW.fin x (by simp [hx])
     have hB1 : BufOK (I1 ++ L) (joinBuf st.buf1 L) := hB.join hW.weak.prefix hL hfL
-    obtain ⟨junk, hj⟩ := hC.join
-    obtain ⟨st', o, hup, hso, hfo, hph', hk1, hk2⟩ := stepG f g1 (fun _ => some c) st L
-      [(Tm.zero, c), (Tm.inf, c)] E hph (phase_hz hph hB hW (phase_h01 hph))
-      (fun _ _ => by rw [hj]; rfl)
+    have hCj : CBuf c (joinBuf st.buf2 C) := hC.joinB (hCs C (by simp))
+    obtain ⟨st', o, hup, hso, hfo, hph', hk1, hk2⟩ := stepG f g1 (fun _ => some c) st L C E hph
+      (phase_hz hph hB hW (phase_h01 hph))
+      (fun _ hne => hCj.hd_zero hne)
       (fun hne => by obtain ⟨p, _, hT⟩ := track_of_bufOK hB1 hne hW; exact ⟨_, hT⟩)
-      (fun _ => by rw [hj]; exact ⟨_, track_const c junk⟩)
+      (fun hne => hCj.track hne)
       (Or.inl hB1.fin)
-    obtain ⟨st'', os, hrun, hbs, hfin⟩ := runR f g1 c W1 hW1 Ls (I1 ++ L) st' (E ++ o) e1
-      (fun B hB => hs B (List.mem_cons_of_mem _ hB)) (hB1.keep hk1) (CBuf.keep ⟨junk, hj⟩ hk2) hph'
+    obtain ⟨st'', os, hrun, hbs, hfin⟩ := runR f g1 c W1 hW1 Ls Cs (I1 ++ L) st' (E ++ o) e1
+      (fun B hB => hs B (List.mem_cons_of_mem _ hB)) (fun C' hC' => hCs C' (List.mem_cons_of_mem _ hC'))
+      (hB1.keep hk1) (hCj.keepB hk2) hph'
     refine ⟨st'', o :: os, ?_, ?_, ?_⟩
-    · simp only [List.length_cons, constStream, List.replicate_succ, List.zip_cons_cons]
+    · rw [List.zip_cons_cons]
       exact runBin_cons _ _ _ _ _ _ _ _ _ hup hrun
     · intro B hB
       rcases List.mem_cons.1 hB with rfl | hB
@@ -1787,31 +1823,32 @@ theorem runR (f : α → α → α) (g1 : Rat → Option α) (c : α) (W1 : ASig
     · simpa [List.append_assoc] using hfin
 
 theorem runL (f : α → α → α) (g2 : Rat → Option α) (c : α) (W2 : ASig α) (hW2 : StreamW g2 W2) :
-    ∀ (Rs : List (ASig α)) (I2 : ASig α) (st : BinSt α) (E : ASig α),
-      I2 ++ Rs.flatten = W2 → (∀ B ∈ Rs, Sorted B) → CBuf c st.buf1 → BufOK I2 st.buf2 →
+    ∀ (Rs Cs : List (ASig α)) (I2 : ASig α) (st : BinSt α) (E : ASig α),
+      I2 ++ Rs.flatten = W2 → (∀ B ∈ Rs, Sorted B) → (∀ C ∈ Cs, CBatch c C) → CBuf c st.buf1 → BufOK I2 st.buf2 →
       Phase (lift2 f (fun _ => some c) g2) st E →
-      ∃ st' outs, runBin (binUpdate f) st ((constStream c Rs.length).zip Rs) = .ok (st', outs) ∧
+      ∃ st' outs, runBin (binUpdate f) st (Cs.zip Rs) = .ok (st', outs) ∧
         (∀ B ∈ outs, Sorted B ∧ ∀ x ∈ B, x.1 ≠ Tm.inf) ∧
         Phase (lift2 f (fun _ => some c) g2) st' (E ++ outs.flatten)
-  | [], I2, st, E, _, _, _, _, hph => ⟨st, [], rfl, by simp, by simpa using hph⟩
-  | R :: Rs, I2, st, E, e2, hs, hC, hB, hph => by
+  | [], _, I2, st, E, _, _, _, _, _, hph => ⟨st, [], by rw [List.zip_nil_right]; rfl, by simp, by simpa using hph⟩
+  | _ :: _, [], I2, st, E, _, _, _, _, _, hph => ⟨st, [], by rw [List.zip_nil_left]; rfl, by simp, by simpa using hph⟩
+  | R :: Rs, C :: Cs, I2, st, E, e2, hs, hCs, hC, hB, hph => by
     simp only [List.flatten_cons] at e2
     rw [← List.append_assoc] at e2
     have hW : StreamW g2 (I2 ++ R ++ Rs.flatten) := by rw [e2]; exact hW2
     have hR : Sorted R := hs R (by simp)
     have hfR : ∀ x ∈ R, x.1 ≠ Tm.inf := fun x hx => hW.fin x (by simp [hx])
     have hB2 : BufOK (I2 ++ R) (joinBuf st.buf2 R) := hB.join hW.weak.prefix hR hfR
-    obtain ⟨junk, hj⟩ := hC.join
-    obtain ⟨st', o, hup, hso, hfo, hph', hk1, hk2⟩ := stepG f (fun _ => some c) g2 st
-      [(Tm.zero, c), (Tm.inf, c)] R E hph
-      (fun _ _ => by rw [hj]; rfl) (phase_hz hph hB hW (phase_h02 hph))
-      (fun _ => by rw [hj]; exact ⟨_, track_const c junk⟩)
+    have hCj : CBuf c (joinBuf st.buf1 C) := hC.joinB (hCs C (by simp))
+    obtain ⟨st', o, hup, hso, hfo, hph', hk1, hk2⟩ := stepG f (fun _ => some c) g2 st C R E hph
+      (fun _ hne => hCj.hd_zero hne) (phase_hz hph hB hW (phase_h02 hph))
+      (fun hne => hCj.track hne)
       (fun hne => by obtain ⟨p, _, hT⟩ := track_of_bufOK hB2 hne hW; exact ⟨_, hT⟩)
       (Or.inr hB2.fin)
-    obtain ⟨st'', os, hrun, hbs, hfin⟩ := runL f g2 c W2 hW2 Rs (I2 ++ R) st' (E ++ o) e2
-      (fun B hB => hs B (List.mem_cons_of_mem _ hB)) (CBuf.keep ⟨junk, hj⟩ hk1) (hB2.keep hk2) hph'
+    obtain ⟨st'', os, hrun, hbs, hfin⟩ := runL f g2 c W2 hW2 Rs Cs (I2 ++ R) st' (E ++ o) e2
+      (fun B hB => hs B (List.mem_cons_of_mem _ hB)) (fun C' hC' => hCs C' (List.mem_cons_of_mem _ hC'))
+      (hCj.keepB hk1) (hB2.keep hk2) hph'
     refine ⟨st'', o :: os, ?_, ?_, ?_⟩
-    · simp only [List.length_cons, constStream, List.replicate_succ, List.zip_cons_cons]
+    · rw [List.zip_cons_cons]
       exact runBin_cons _ _ _ _ _ _ _ _ _ hup hrun
     · intro B hB
       rcases List.mem_cons.1 hB with rfl | hB
@@ -1860,12 +1897,13 @@ theorem binStream_ok (f : α → α → α) {Ls Rs : List (ASig α)} (hlen : Ls.
 
 
 open BinAux in
-/-- The right operand is a constant node (its batch `[[0, c], [inf, c]]` arrives at every update). -/
+/-- The right operand is a constant node (its batch `[[0, c], [inf, c]]` arrives at the first update, an empty batch
+    afterwards). -/
 theorem binStream_const_right (f : α → α → α) (c : α) {Ls : List (ASig α)} {g1 : Rat → Option α} (h1 : StreamOK Ls 0 g1) :
     ∃ st outs, runBin (binUpdate f) {} (Ls.zip (constStream c Ls.length)) = .ok (st, outs) ∧
       StreamOK outs 0 (fun t => (g1 t).map (fun a => f a c)) := by
-  obtain ⟨st, outs, hrun, hbs, hph⟩ := runR f g1 c Ls.flatten (StreamW.of_ok h1) Ls [] {} [] rfl
-    h1.1.batch_sorted BufOK.nil (Or.inl rfl) (phase_init _)
+  obtain ⟨st, outs, hrun, hbs, hph⟩ := runR f g1 c Ls.flatten (StreamW.of_ok h1) Ls
+    (constStream c Ls.length) [] {} [] rfl h1.1.batch_sorted (cbatch_constStream c _) BufOK.nil (Or.inl rfl) (phase_init _)
   refine ⟨st, outs, hrun, streamOK_congr (streamOK_of_E hbs ?_) (lift2_const_right f g1 c)⟩
   simpa using phase_E hph
 
@@ -1874,8 +1912,8 @@ open BinAux in
 theorem binStream_const_left (f : α → α → α) (c : α) {Rs : List (ASig α)} {g2 : Rat → Option α} (h2 : StreamOK Rs 0 g2) :
     ∃ st outs, runBin (binUpdate f) {} ((constStream c Rs.length).zip Rs) = .ok (st, outs) ∧
       StreamOK outs 0 (fun t => (g2 t).map (fun b => f c b)) := by
-  obtain ⟨st, outs, hrun, hbs, hph⟩ := runL f g2 c Rs.flatten (StreamW.of_ok h2) Rs [] {} [] rfl
-    h2.1.batch_sorted (Or.inl rfl) BufOK.nil (phase_init _)
+  obtain ⟨st, outs, hrun, hbs, hph⟩ := runL f g2 c Rs.flatten (StreamW.of_ok h2) Rs
+    (constStream c Rs.length) [] {} [] rfl h2.1.batch_sorted (cbatch_constStream c _) (Or.inl rfl) BufOK.nil (phase_init _)
   refine ⟨st, outs, hrun, streamOK_congr (streamOK_of_E hbs ?_) (lift2_const_left f g2 c)⟩
   simpa using phase_E hph
 
